@@ -446,6 +446,11 @@ func runHTTP(data []byte, force bool) (out httpOutcome) {
 		if ok {
 			out.Created++
 			classes = append(classes, "created")
+			// the file does not decode: the request has to get an error response, not a model
+			if r0 := decodeOnce(data, 0, false); strings.HasPrefix(r0.Outcome, "error:") {
+				add(&finding{Sig: "C10/http/" + name + "/success-for-undecodable-file", Phase: "http " + name,
+					Msg: fmt.Sprintf("ggml.Decode rejects the file (%s) but POST /api/create answers %d %q and the model is created", r0.Err, w.Code, clip(w.Body.Bytes()))})
+			}
 		} else {
 			classes = append(classes, fmt.Sprint(w.Code))
 		}
